@@ -71,5 +71,5 @@ CleanEmit == done => PrintT(<<"SCN", ToJson([inputs |-> [i \in 1..Len(inputs) |-
                                              boots |-> [b \in 1..NB |-> [ecu |-> bootRec[b].ecu, bt |-> bootRec[b].bt, delay |-> bootRec[b].dl,
                                                                          maxts |-> bootRec[b].maxts]],
                                              delivered |-> delivered, pub |-> PubList, panic |-> panic,
-                                             c05 |-> C05, c06 |-> C06, c07 |-> C07, kf |-> kfClass, exact |-> Exact])>>)
+                                             c05 |-> C05, c06 |-> C06, c07 |-> C07, kf |-> kfClass, exact |-> Exact, paths |-> paths])>>)
 =============================================================================
